@@ -1,0 +1,7 @@
+//go:build !verif
+
+package discovery
+
+// Verification hooks (see verif_on.go). Without the `verif` build tag they are empty and inlined away.
+
+func verifEv(any, string) {}
